@@ -256,7 +256,7 @@ func vRunProvider(run *vPRun, seed int64) []vPViolation {
 	}
 	_ = vs.NewRand
 	g := vs.NewGates()
-	bus := pubsub.NewBus()
+	bus := venv.QuietBus(pubsub.NewBus())
 	prov := sdk.AccAddress([]byte("verif-provider-00000"))
 	other := sdk.AccAddress([]byte("verif-provider-99999"))
 
